@@ -341,3 +341,51 @@ Proof.
   destruct Hin as [Hmem _].
   pose proof (chosen_stack_bytes_le pi t (s0_ctx (initial_stack pi t)) (fun r Hr => proj1 (Hmem r Hr)) Ht). lia.
 Qed.
+
+(* ------------------------------------------------------------------ BitFlipDetails::confidence: NEARBY_REGISTER[..] *)
+Lemma nearby_index_total p n : 0 <= n < two32 ->
+  exists r, nearby_index p n = Ret r /\
+    (n = 0 -> r = None) /\ (0 < n -> r = Some (Z.min n NEARBY_REGISTER_LEN - 1) /\ 0 <= Z.min n NEARBY_REGISTER_LEN - 1 < NEARBY_REGISTER_LEN).
+Proof.
+  intros Hn. unfold nearby_index, NEARBY_REGISTER_LEN. destruct (0 <? n) eqn:E.
+  - apply Z.ltb_lt in E. rewrite P5.chk_sub_ok by (change (2 ^ 64) with 18446744073709551616; lia). cbn [obind].
+    replace ((0 <=? Z.min n 4 - 1) && (Z.min n 4 - 1 <? 4)) with true
+      by (symmetry; apply andb_true_intro; split; [apply Z.leb_le|apply Z.ltb_lt]; lia).
+    eexists. split; [reflexivity|]. split; [lia|]. intros _. split; [reflexivity|lia].
+  - apply Z.ltb_ge in E. eexists. split; [reflexivity|]. split; [reflexivity|lia].
+Qed.
+
+Lemma nearby_count_from p address regs : forall acc, 0 <= acc -> acc + Z.of_nat (length regs) < two32 ->
+  exists n, fold_left (fun a r => do k <- a;
+                                  if (LOW_ADDRESS_CUTOFF <? address) && (Z.abs (address - r) <=? NEARBY_REGISTER_DISTANCE)
+                                  then chk_add p 32 PANIC_ARITH k 1 else Ret k) regs (Ret acc) = Ret n /\
+            acc <= n <= acc + Z.of_nat (length regs).
+Proof.
+  induction regs as [|r t IH]; intros acc H0 H1; cbn [fold_left length] in *.
+  - exists acc. split; [reflexivity|lia].
+  - cbn [obind]. destruct ((LOW_ADDRESS_CUTOFF <? address) && (Z.abs (address - r) <=? NEARBY_REGISTER_DISTANCE)).
+    + rewrite P5.chk_add_ok by (change (2 ^ 32) with two32; lia).
+      destruct (IH (acc + 1)) as [n [E Hn]]; [lia|lia|]. exists n. split; [exact E|lia].
+    + destruct (IH acc) as [n [E Hn]]; [lia|lia|]. exists n. split; [exact E|lia].
+Qed.
+
+(* for any candidate address and any register file (fewer than 2^32 registers), in both profiles: the count cannot overflow,
+   the subtraction cannot underflow and the table index is in bounds *)
+Lemma nearby_site_total p address regs : Z.of_nat (length regs) < two32 ->
+  exists n i, nearby_site p address regs = Ret (n, i) /\ 0 <= n <= Z.of_nat (length regs) /\
+              (n = 0 -> i = None) /\ (0 < n -> i = Some (Z.min n NEARBY_REGISTER_LEN - 1)).
+Proof.
+  intros H. unfold nearby_site, nearby_count.
+  destruct (nearby_count_from p address regs 0) as [n [E Hn]]; [lia|lia|]. rewrite E. cbn [obind].
+  destruct (nearby_index_total p n) as [i [Ei [H0 H1]]]; [lia|]. rewrite Ei. cbn [obind].
+  exists n, i. split; [reflexivity|]. split; [lia|]. split; [exact H0|]. intros Hp. exact (proj1 (H1 Hp)).
+Qed.
+
+(* seeded/C03-7: clamping to the table length after the subtraction indexes one past the end for every count >= 5 *)
+Lemma nearby_clamp_len_panics p n : 5 <= n < two32 -> nearby_index_clamp_len p n = Panic PANIC_INDEX.
+Proof.
+  intros H. unfold nearby_index_clamp_len, NEARBY_REGISTER_LEN.
+  replace (0 <? n) with true by (symmetry; apply Z.ltb_lt; lia).
+  rewrite P5.chk_sub_ok by (change (2 ^ 64) with 18446744073709551616; unfold two32 in H; lia). cbn [obind].
+  replace (Z.min (n - 1) 4) with 4 by lia. reflexivity.
+Qed.
